@@ -24,18 +24,17 @@ Theorem tie_shadow_encode : forall r o,
 Proof. intros. unfold gen_shadow_encode, encode, reg_size, reg_len. reflexivity. Qed.
 Print Assumptions tie_shadow_encode.
 
-(* the three arithmetic lines of MemoryMap._translate  =  what Model.MemoryMap.translate puts into the
+(* the start / end / width arguments of the ResourceInfo that MemoryMap._translate returns  =  what Model.MemoryMap.translate puts into the
    ResourceInfo it returns *)
 Theorem tie_translate : forall i wdw wname wstart wstep i',
   translate i wdw wname wstart wstep = Ok i' ->
   i_start i' = gen_translate_start (i_start i) (i_end i) (i_width i) wstart wstep /\
-  i_end i' = gen_translate_start (i_start i) (i_end i) (i_width i) wstart wstep +
-             gen_translate_size (i_start i) (i_end i) (i_width i) wstart wstep /\
+  i_end i' = gen_translate_end (i_start i) (i_end i) (i_width i) wstart wstep /\
   i_width i' = gen_translate_width (i_start i) (i_end i) (i_width i) wstart wstep /\
   i_res i' = i_res i.
 Proof.
   intros i wdw wname wstart wstep i' H. unfold translate in H.
-  unfold gen_translate_start, gen_translate_size, gen_translate_width.
+  unfold gen_translate_start, gen_translate_end, gen_translate_width.
   repeat match type of H with
          | bind (check ?b ?e) _ = Ok _ => destruct b; simpl in H; [|discriminate]
          end.
